@@ -1,6 +1,7 @@
 package main
 
 import (
+	"sort"
 	"fmt"
 	"go/ast"
 	"go/token"
@@ -9,7 +10,7 @@ import (
 
 // Logger.lean (property C20), regenerated from logger.go:
 //
-//	loggerLevelCases     the case clauses of `func level(status int) slog.Level`, in source order, as
+//	loggerLevelPartition `func level(status int) slog.Level` as a canonical partition of the integers (see below); was: the case clauses in source order, as
 //	                     (inclusive lower bound, exclusive upper bound | none, numeric slog level)
 //	loggerLevelDefault   the numeric slog level of the default clause
 //	loggerNextCalls      number of calls of next(...) in the middleware body (LoggerWithHandler's innermost func literal)
@@ -54,15 +55,32 @@ func lgfBoundOf(e ast.Expr, param string) (lower bool, val int64, err error) {
 	if !ok {
 		return false, 0, fmt.Errorf("level: unexpected condition shape")
 	}
+	op := be.Op
 	id, ok := be.X.(*ast.Ident)
+	other := be.Y
 	if !ok || id.Name != param {
-		return false, 0, fmt.Errorf("level: comparison does not start with %s", param)
+		// constant on the left: `200 <= status`
+		id, ok = be.Y.(*ast.Ident)
+		if !ok || id.Name != param {
+			return false, 0, fmt.Errorf("level: comparison does not mention %s", param)
+		}
+		other = be.X
+		switch be.Op {
+		case token.GEQ:
+			op = token.LEQ
+		case token.GTR:
+			op = token.LSS
+		case token.LSS:
+			op = token.GTR
+		case token.LEQ:
+			op = token.GEQ
+		}
 	}
-	v, err := evalInt(be.Y, constEnv{}, 0)
+	v, err := evalInt(other, constEnv{}, 0)
 	if err != nil {
 		return false, 0, err
 	}
-	switch be.Op {
+	switch op {
 	case token.GEQ:
 		return true, v, nil
 	case token.GTR:
@@ -92,8 +110,22 @@ func genLoggerFacts(r *Repo) (string, error) {
 	if !ok || sw.Tag != nil || sw.Init != nil {
 		return "", fmt.Errorf("level: body is not a tagless switch")
 	}
-	var cases []string
+	// Every case is a conjunction of comparisons of the parameter with integer constants (either operand order); the
+	// switch is evaluated as Go does (first matching case, else default) at the representatives of every interval
+	// between the constants, which yields the function as a canonical partition of the integers: consecutive intervals
+	// (-inf, b1), [b1, b2), ... [bn, +inf) with their levels, adjacent intervals of equal level merged. Two switches that
+	// compute the same function (other case order, redundant bounds dropped, `>` for `>=`, ...) give the same table.
+	type cmp struct {
+		lower bool
+		v     int64
+	}
+	type lcase struct {
+		conds []cmp
+		lvl   int64
+	}
+	var lcases []lcase
 	dflt := int64(-1000)
+	breaks := map[int64]bool{}
 	for _, st := range sw.Body.List {
 		cc := st.(*ast.CaseClause)
 		lvl, err := lgfSlogLevelOf(cc.Body)
@@ -104,56 +136,91 @@ func genLoggerFacts(r *Repo) (string, error) {
 			dflt = lvl
 			continue
 		}
-		if dflt != -1000 {
-			return "", fmt.Errorf("level: default clause is not last")
-		}
-		if len(cc.List) != 1 {
-			return "", fmt.Errorf("level: case with several expressions")
-		}
-		var conj []ast.Expr
-		var flat func(e ast.Expr)
-		flat = func(e ast.Expr) {
-			if p, ok := e.(*ast.ParenExpr); ok {
-				flat(p.X)
-				return
-			}
-			if b, ok := e.(*ast.BinaryExpr); ok && b.Op == token.LAND {
-				flat(b.X)
-				flat(b.Y)
-				return
-			}
-			conj = append(conj, e)
-		}
-		flat(cc.List[0])
-		lo, hi := int64(0), "none"
-		haveLo := false
-		for _, c := range conj {
-			lower, v, err := lgfBoundOf(c, param)
-			if err != nil {
-				return "", err
-			}
-			if lower {
-				if haveLo {
-					return "", fmt.Errorf("level: two lower bounds in one case")
+		// `case a, b:` is a disjunction: one entry per alternative, same level
+		for _, alt := range cc.List {
+			var conj []ast.Expr
+			var flat func(e ast.Expr)
+			flat = func(e ast.Expr) {
+				if p, ok := e.(*ast.ParenExpr); ok {
+					flat(p.X)
+					return
 				}
-				lo, haveLo = v, true
-			} else {
-				if hi != "none" {
-					return "", fmt.Errorf("level: two upper bounds in one case")
+				if b, ok := e.(*ast.BinaryExpr); ok && b.Op == token.LAND {
+					flat(b.X)
+					flat(b.Y)
+					return
 				}
-				hi = fmt.Sprintf("some %d", v)
+				conj = append(conj, e)
 			}
+			flat(alt)
+			lc := lcase{lvl: lvl}
+			for _, c := range conj {
+				lower, v, err := lgfBoundOf(c, param)
+				if err != nil {
+					return "", err
+				}
+				lc.conds = append(lc.conds, cmp{lower, v})
+				breaks[v] = true
+			}
+			lcases = append(lcases, lc)
 		}
-		if !haveLo {
-			return "", fmt.Errorf("level: case without lower bound")
-		}
-		cases = append(cases, fmt.Sprintf("(%d, %s, %d)", lo, hi, lvl))
 	}
 	if dflt == -1000 {
+		// a switch without default falls through to the statements after it: not supported
 		return "", fmt.Errorf("level: no default clause")
 	}
-	fmt.Fprintf(&sb, "def loggerLevelCases : List (Int × Option Int × Int) := [%s]\n", strings.Join(cases, ", "))
-	fmt.Fprintf(&sb, "def loggerLevelDefault : Int := %d\n", dflt)
+	eval := func(s int64) int64 {
+		for _, lc := range lcases {
+			ok := true
+			for _, c := range lc.conds {
+				if c.lower && !(s >= c.v) || !c.lower && !(s < c.v) {
+					ok = false
+					break
+				}
+			}
+			if ok {
+				return lc.lvl
+			}
+		}
+		return dflt
+	}
+	var bs []int64
+	for b := range breaks {
+		bs = append(bs, b)
+	}
+	sort.Slice(bs, func(i, j int) bool { return bs[i] < bs[j] })
+	// intervals: (-inf, bs[0]), [bs[0], bs[1]), ..., [bs[n-1], +inf); representative = the lower end (bs[0]-1 for the first)
+	type piece struct {
+		hi  string // exclusive upper end, "none" = +inf
+		lvl int64
+	}
+	var pieces []piece
+	for i := 0; i <= len(bs); i++ {
+		var rep int64
+		hi := "none"
+		switch {
+		case len(bs) == 0:
+			rep = 0
+		case i == 0:
+			rep, hi = bs[0]-1, fmt.Sprintf("some %d", bs[0])
+		case i == len(bs):
+			rep = bs[i-1]
+		default:
+			rep, hi = bs[i-1], fmt.Sprintf("some %d", bs[i])
+		}
+		pc := piece{hi, eval(rep)}
+		if n := len(pieces); n > 0 && pieces[n-1].lvl == pc.lvl {
+			pieces[n-1].hi = pc.hi
+		} else {
+			pieces = append(pieces, pc)
+		}
+	}
+	var cells []string
+	for _, pc := range pieces {
+		cells = append(cells, fmt.Sprintf("(%s, %d)", pc.hi, pc.lvl))
+	}
+	fmt.Fprintf(&sb, "/-- `func level` as a partition of the integers: (exclusive upper end, slog level), ascending; `none` = +inf -/\n")
+	fmt.Fprintf(&sb, "def loggerLevelPartition : List (Option Int × Int) := [%s]\n", strings.Join(cells, ", "))
 
 	// ---- middleware body: the innermost func literal of LoggerWithHandler
 	lw := r.FuncDecl("logger.go", "", "LoggerWithHandler")
